@@ -9,8 +9,7 @@ Restates the decision logic of
   operand), `dynamic_cast_inputs` (eager: `np.array(pyvalue, dtype = bound dtype or _get_dtype)`),
 * `onnxscript/_internal/tape_builder.py` — `BuilderBase._cast_inputs` (*first* binding wins),
   `_input_to_ir_value` (static dtype when the sibling's dtype is known, dynamic `CastLike` otherwise),
-* `onnxscript/_internal/builder.py` — `GraphBuilder._get_or_create_constant` and its
-  `_constant_cache` keyed by Python `==`/`hash` on `(value, dtype)`, names from `_constant_name`.
+* (`GraphBuilder._get_or_create_constant` and its `_constant_cache` are modelled in `OV.Model.C12Cache`.)
 
 Values are symbolic where IEEE rounding would be needed: a float value is the real number
 `±num/den` "rounded to the carrying dtype", with a flag recording a detour through float32.
@@ -461,86 +460,6 @@ def dtypes (r : Except Err (List Out)) : Option (List (Option DType)) :=
   match r with
   | .ok os => some (os.map Out.dtype?)
   | .error _ => Option.none
-
-/-! ## The GraphBuilder constant cache -/
-
-/-- A Python number as a fraction `(numerator, denominator)`. -/
-def Scalar.frac : Scalar → Int × Nat
-  | .b v => (boolInt v, 1)
-  | .i v => (v, 1)
-  | .f neg n d => (signed neg n, d)
-
-/-- Python `==` on numbers: `True == 1 == 1.0`, `0.0 == -0.0`. -/
-def pyEqS (x y : Scalar) : Bool :=
-  let (a, b) := x.frac
-  let (c, d) := y.frac
-  a * (d : Int) == c * (b : Int)
-
-def pyEqList : List Scalar → List Scalar → Bool
-  | [], [] => true
-  | x :: xs, y :: ys => pyEqS x y && pyEqList xs ys
-  | _, _ => false
-
-/-- Python `==` on the first component of the cache key: a scalar, or `tuple(value)`. -/
-def pyEq : Lit → Lit → Bool
-  | .s x, .s y => pyEqS x y
-  | .l x xs, .l y ys => pyEqList (x :: xs) (y :: ys)
-  | _, _ => false
-
-/-- Name given by `_constant_name`: `const_<value>_<suffix>` for scalars, `const_1d_<n>` for lists. -/
-inductive CName
-  | scalar (x : Scalar) (suffix : Option DType)
-  | list (n : Nat)
-  deriving DecidableEq, Repr
-
-structure Entry where
-  key : Lit
-  keyDt : Option DType
-  name : CName
-  dtype : DType
-  vals : List SVal
-  deriving DecidableEq, Repr
-
-abbrev Cache := List Entry
-
-def Cache.find (c : Cache) (l : Lit) (dt : Option DType) : Option Entry :=
-  List.find? (fun e => pyEq e.key l && e.keyDt == dt) c
-
-/-- Key dtype: the requested dtype, else `_PYTHON_TYPE_TO_DTYPE.get(type(value))` (none for bool). -/
-def keyDType (l : Lit) (dt : Option DType) : Option DType :=
-  match dt with
-  | some d => some d
-  | none => match l.head.kind with
-    | .i => some .int64
-    | .f => some .float
-    | .b => Option.none
-
-def cname (l : Lit) (kd : Option DType) (n : Nat) : CName :=
-  match l with
-  | .s x => .scalar x kd
-  | .l .. => .list n
-
-/-- `GraphBuilder._get_or_create_constant(value, dtype)`: returns the new cache and the entry used. -/
-def promote (c : Cache) (l : Lit) (dt : Option DType) : Except Err (Cache × Entry) :=
-  if !builderAccepts l then .error .refused else
-  let kd := keyDType l dt
-  match c.find l kd with
-  | some e => .ok (c, e)
-  | none =>
-    let d := kd.getD .bool
-    match mapE (fun e => npCast e d) l.elems with
-    | .error e => .error e
-    | .ok vs =>
-      let e : Entry := ⟨l, kd, cname l kd c.length, d, vs⟩
-      .ok (c ++ [e], e)
-
-/-- Run a sequence of promotions; failed ones leave the cache unchanged. -/
-def promoteAll : Cache → List (Lit × Option DType) → Cache
-  | c, [] => c
-  | c, (l, dt) :: rs =>
-    match promote c l dt with
-    | .ok (c', _) => promoteAll c' rs
-    | .error _ => promoteAll c rs
 
 /-! ## Table check used by the generated registry theorems -/
 
